@@ -182,6 +182,11 @@ class Log:
     def __init__(self, clock=None):
         self.events = []
         self.clock = clock
+        self.snaps = []
+
+    def mutated(self):
+        """[(event index, node id)] of emitted list batches that changed after emission"""
+        return [(idx, rid) for idx, rid, x, c in self.snaps if canon(x) != c]
 
     def add(self, *ev):
         self.events.append(ev)
@@ -204,7 +209,10 @@ class Rec(Stream):
         md = metadata
         if isinstance(md, list):
             md = list(md)
-        self.log.add("rec", self.rec_id, x, md, self.log.now())
+        idx = self.log.add("rec", self.rec_id, x, md, self.log.now())
+        if isinstance(x, list):
+            # a delivered batch must not change afterwards: remember what it looked like
+            self.log.snaps.append((idx, self.rec_id, x, canon(x)))
         return []
 
 
